@@ -272,6 +272,11 @@ package runner
 //@   ensures result != nil && result.Env != nil && result.Variables != nil
 //@ func WithQuote
 //@   nomod
+// runner options: closures applied by NewTaskRunner (assumed: the option does what its name says)
+//@ func WithVariables
+//@   nomod
+//@ func WithContexts
+//@   nomod
 
 // ---- execution-context hooks (C14)
 //@ pred ctxOK(c *ExecutionContext) := c != nil && c.Env != nil && c.Variables != nil
